@@ -305,3 +305,100 @@ func (w *World) parserSideFn(fn *ssa.Function) bool {
 	}
 	return false
 }
+
+// checkDecimalLiterals — R08.11: a number literal denotes the decimal number its digits spell.
+// Every string→integer conversion in the package whose result becomes the value of a
+// LiteralNode (through NewLiteralNode or a store into LiteralNode.value) is strconv.Atoi or
+// strconv.ParseInt/ParseUint with the constant base 10.  Base 0 reads `010` as eight and `09`
+// as an error (dropped: zero); any other base misreads every literal.
+func checkDecimalLiterals(w *World, r *Report) {
+	newLit := w.ssaFunc(w.fn("NewLiteralNode"))
+	reachesLiteral := func(start ssa.Value) bool {
+		seen := map[ssa.Value]bool{}
+		work := []ssa.Value{start}
+		for len(work) > 0 {
+			v := work[len(work)-1]
+			work = work[:len(work)-1]
+			if seen[v] || v.Referrers() == nil {
+				continue
+			}
+			seen[v] = true
+			for _, ref := range *v.Referrers() {
+				switch x := ref.(type) {
+				case *ssa.Extract:
+					if x.Index == 0 {
+						work = append(work, x)
+					}
+				case *ssa.Convert:
+					work = append(work, x)
+				case *ssa.ChangeType:
+					work = append(work, x)
+				case *ssa.MakeInterface:
+					work = append(work, x)
+				case *ssa.Phi:
+					work = append(work, x)
+				case *ssa.BinOp:
+					if x.Op == token.SUB || x.Op == token.MUL { // -v, sign handling
+						work = append(work, x)
+					}
+				case *ssa.UnOp:
+					if x.Op == token.SUB {
+						work = append(work, x)
+					}
+				case *ssa.Store:
+					if x.Val == v {
+						if fa, ok := x.Addr.(*ssa.FieldAddr); ok {
+							if t, f := fieldOfAddr(fa); t == "LiteralNode" && f == "value" {
+								return true
+							}
+						}
+						if al, ok := x.Addr.(*ssa.Alloc); ok { // spilled local
+							for _, r2 := range *al.Referrers() {
+								if ld, ok := r2.(*ssa.UnOp); ok && ld.Op == token.MUL {
+									work = append(work, ld)
+								}
+							}
+						}
+					}
+				case ssa.CallInstruction:
+					if newLit != nil && x.Common().StaticCallee() == newLit {
+						return true
+					}
+				}
+			}
+		}
+		return false
+	}
+	n := 0
+	for _, fn := range w.pkgFuncs() {
+		instrsOf(fn, func(in ssa.Instruction) {
+			c, ok := in.(*ssa.Call)
+			if !ok {
+				return
+			}
+			f := c.Call.StaticCallee()
+			if f == nil {
+				return
+			}
+			full := f.String()
+			if full != "strconv.Atoi" && full != "strconv.ParseInt" && full != "strconv.ParseUint" {
+				return
+			}
+			if !reachesLiteral(c) {
+				return
+			}
+			n++
+			construct := "integer literal converted in base ten"
+			if full == "strconv.Atoi" {
+				r.ok("R08.11", ssaName(fn), construct, w.posOf(in.Pos()), "strconv.Atoi", true)
+				return
+			}
+			if k, ok := c.Call.Args[1].(*ssa.Const); ok && k.Value != nil && k.Int64() == 10 {
+				r.ok("R08.11", ssaName(fn), construct, w.posOf(in.Pos()), "constant base 10", true)
+				return
+			}
+			r.bad("R08.11", ssaName(fn), construct, w.posOf(in.Pos()), "the value of a number literal is converted with a base that is not the constant 10: with base 0 a leading zero selects octal (010 is eight, 09 fails and — the error being dropped — is zero), so arithmetic on such literals is not the arithmetic of the numbers written")
+		})
+	}
+	r.floor("string→integer conversions that become literal values", n, 1)
+}
